@@ -10,49 +10,49 @@ open HTree
 
 /-- One step up from the focus: the parent's handle and value, and the siblings to the left
     (the focus is the last child). -/
-structure Frame where
+structure CFrame where
   h : Nat
   v : Value
   left : List HTree
 
 /-- Rebuild the tree: frames from the root inwards, focus `t` at the bottom right. -/
-def plug : List Frame → HTree → HTree
+def plug : List CFrame → HTree → HTree
   | [], t => t
   | fr :: fs, t => .node fr.h fr.v (fr.left ++ [plug fs t])
 
 /-- All handles that belong to the frames. -/
-def frameHandles : List Frame → List Nat
+def frameHandles : List CFrame → List Nat
   | [] => []
   | fr :: fs => fr.h :: (handlesList fr.left ++ frameHandles fs)
 
-theorem frameHandles_append (A B : List Frame) :
+theorem frameHandles_append (A B : List CFrame) :
     frameHandles (A ++ B) = frameHandles A ++ frameHandles B := by
   induction A with
   | nil => rfl
   | cons a A ih => simp [frameHandles, ih, List.append_assoc]
 
-theorem handles_plug (fs : List Frame) (t : HTree) :
+theorem handles_plug (fs : List CFrame) (t : HTree) :
     handles (plug fs t) = frameHandles fs ++ handles t := by
   induction fs with
   | nil => rfl
   | cons fr fs ih =>
     simp [plug, handles, frameHandles, handlesList_append, handlesList_singleton, ih, List.append_assoc]
 
-theorem plug_append (fs : List Frame) (fr : Frame) (t : HTree) :
+theorem plug_append (fs : List CFrame) (fr : CFrame) (t : HTree) :
     plug (fs ++ [fr]) t = plug fs (.node fr.h fr.v (fr.left ++ [t])) := by
   induction fs with
   | nil => rfl
   | cons a fs ih => simp [plug, ih]
 
 /-- Handle of the root of the plugged tree. -/
-def plugRoot : List Frame → HTree → Nat
+def plugRoot : List CFrame → HTree → Nat
   | [], t => t.handle
   | fr :: _, _ => fr.h
 
-theorem handle_plug (fs : List Frame) (t : HTree) : (plug fs t).handle = plugRoot fs t := by
+theorem handle_plug (fs : List CFrame) (t : HTree) : (plug fs t).handle = plugRoot fs t := by
   cases fs <;> rfl
 
-theorem plugRoot_mem (fs : List Frame) (t : HTree) :
+theorem plugRoot_mem (fs : List CFrame) (t : HTree) :
     plugRoot fs t ∈ frameHandles fs ++ [t.handle] := by
   cases fs with
   | nil => simp [plugRoot, frameHandles]
@@ -81,7 +81,7 @@ theorem ancestorsOfList_singleton (h : Nat) (t : HTree) : ancestorsOfList h [t] 
   simp only [ancestorsOfList]
   cases ancestorsOf h t <;> rfl
 
-theorem find?_plug (h : Nat) (fs : List Frame) (t : HTree) (hn : h ∉ frameHandles fs) :
+theorem find?_plug (h : Nat) (fs : List CFrame) (t : HTree) (hn : h ∉ frameHandles fs) :
     find? h (plug fs t) = find? h t := by
   induction fs with
   | nil => rfl
@@ -91,7 +91,7 @@ theorem find?_plug (h : Nat) (fs : List Frame) (t : HTree) (hn : h ∉ frameHand
     rw [find?_node_ne _ _ (fun e => hn.1 e.symm), findList?_append_of_not_mem h _ _ hn.2.1,
       findList?_singleton, ih hn.2.2]
 
-theorem mapAt_plug (h : Nat) (g : HTree → HTree) (fs : List Frame) (t : HTree)
+theorem mapAt_plug (h : Nat) (g : HTree → HTree) (fs : List CFrame) (t : HTree)
     (hn : h ∉ frameHandles fs) : mapAt h g (plug fs t) = plug fs (mapAt h g t) := by
   induction fs with
   | nil => rfl
@@ -107,7 +107,7 @@ theorem mapAt_self (h : Nat) (g : HTree → HTree) (v : Value) (ks : List HTree)
   simp [mapAt]
 
 /-- `replaceBelow` reaches the child list of the focus. -/
-theorem replaceBelow_plug (h : Nat) (f : HTree → List HTree) (fs : List Frame) (c : Nat) (vc : Value)
+theorem replaceBelow_plug (h : Nat) (f : HTree → List HTree) (fs : List CFrame) (c : Nat) (vc : Value)
     (K : List HTree) (hn : h ∉ frameHandles fs) (hc : h ≠ c) :
     replaceBelow h f (plug fs (.node c vc K)) = plug fs (.node c vc (replaceKids h f K)) := by
   induction fs with
@@ -137,7 +137,7 @@ theorem replaceKids_last (h : Nat) (f : HTree → List HTree) (K' : List HTree) 
   rw [replaceKids_append_of_not_mem h f _ _ hn]
   simp [replaceKids, hx]
 
-theorem ancestorsOf_plug (fs : List Frame) (t : HTree) (hn : t.handle ∉ frameHandles fs) :
+theorem ancestorsOf_plug (fs : List CFrame) (t : HTree) (hn : t.handle ∉ frameHandles fs) :
     ancestorsOf t.handle (plug fs t) = some (t.handle :: (fs.map (·.h)).reverse) := by
   induction fs with
   | nil =>
@@ -150,7 +150,7 @@ theorem ancestorsOf_plug (fs : List Frame) (t : HTree) (hn : t.handle ∉ frameH
       ancestorsOfList_singleton, ih hn.2.2]
     simp
 
-theorem ancestorsOf_plug_mem (fs : List Frame) (t : HTree) (hn : t.handle ∉ frameHandles fs) :
+theorem ancestorsOf_plug_mem (fs : List CFrame) (t : HTree) (hn : t.handle ∉ frameHandles fs) :
     ∀ l, ancestorsOf t.handle (plug fs t) = some l → ∀ a ∈ l, a = t.handle ∨ a ∈ frameHandles fs := by
   intro l hl a ha
   rw [ancestorsOf_plug fs t hn] at hl
